@@ -2,10 +2,21 @@
 // deterministic interleavings: the protected handler blocks on a channel, so every request is
 // "inside the handler" from its `start` line until its `finish` line.
 //
-//	cfg max=<int> [ext=custom|builtin]
-//	start <id> <src> [amt=<int>] [err=1]  -> admitted | 429 | err <status> | status <n> | dup
-//	finish <id> normal|panic              -> released | unknown
+//	cfg max=<int> [ext=custom|builtin] [slowreject=1]
+//	start <id> <src> [amt=<int>] [err=1]  -> admitted | 429 | rejecting | err <status> | status <n> | dup
+//	finish <id> normal|panic              -> released | rejected-done | unknown
+//	pstart <n> <src> <prefix>             -> admitted=<a> rejected=<r> | admitted=<a> rejecting=<r> | dup
 //	inflight <src>                        -> <n>   requests of <src> observed inside the handler
+//
+// slowreject=1: the limiter is built with connlimit.ErrorHandler(h) where h parks every MaxConnError
+// rejection until its `finish` line (a slow error handler / slow client), then answers like the
+// stock handler.  `start` then returns `rejecting` once the request is parked inside h.
+//
+// pstart: n (1..64) simultaneous arrivals of one source.  The n goroutines are lined up by a spin
+// barrier placed as close to acquire as the exported API allows (inside the custom extractor, which
+// ServeHTTP calls right before acquire; before ServeHTTP for ext=builtin) and let go together.  The
+// op returns when each of them is inside the protected handler, parked in the slow error handler, or
+// answered; the admitted ones then get the ids <prefix>0.., the parked rejections the following ids.
 //
 // ext=custom (default): a utils.ExtractorFunc that returns (src, amt, nil) or an error (err=1).
 // ext=builtin: utils.NewExtractor("request.header.X-Src") — amount is always 1, never an error.
@@ -16,8 +27,10 @@ import (
 	"fmt"
 	"net/http"
 	"net/http/httptest"
+	"runtime"
 	"strconv"
 	"sync"
+	"sync/atomic"
 
 	"github.com/vulcand/oxy/v2/connlimit"
 	"github.com/vulcand/oxy/v2/utils"
@@ -25,10 +38,28 @@ import (
 )
 
 type req struct {
-	src     string
-	entered chan struct{}
-	release chan string
-	done    chan int // status code once ServeHTTP has returned (or panicked and been recovered)
+	src        string
+	entered    chan struct{}
+	release    chan string
+	rejecting  chan struct{} // closed once the request is parked inside the slow error handler
+	rejRelease chan struct{}
+	parked     bool
+	done       chan int // status code once ServeHTTP has returned (or panicked and been recovered)
+}
+
+// burst lines up the n arrivals of one pstart.
+type burst struct {
+	n       int32
+	arrived int32
+}
+
+func (b *burst) wait() {
+	atomic.AddInt32(&b.arrived, 1)
+	for spins := 0; atomic.LoadInt32(&b.arrived) < b.n; spins++ {
+		if spins > 2000 {
+			runtime.Gosched()
+		}
+	}
 }
 
 type h struct {
@@ -37,7 +68,24 @@ type h struct {
 	mu      sync.Mutex
 	reqs    map[string]*req // by key (id, or a synthetic key for err=1 requests)
 	inside  map[string]int  // per source: requests currently inside the protected handler
+	bursts  map[string]*burst
+	slow    bool
 	seq     int
+}
+
+// slowErr is the parking error handler of slowreject=1.
+func (s *h) slowErr(w http.ResponseWriter, r *http.Request, err error) {
+	//nolint:errorlint // same test as the stock handler
+	if _, ok := err.(*connlimit.MaxConnError); ok {
+		s.mu.Lock()
+		rq := s.reqs[r.Header.Get("X-Key")]
+		s.mu.Unlock()
+		if rq != nil {
+			close(rq.rejecting)
+			<-rq.rejRelease
+		}
+	}
+	(&connlimit.ConnErrHandler{}).ServeHTTP(w, r, err)
 }
 
 func (s *h) protected(w http.ResponseWriter, r *http.Request) {
@@ -57,8 +105,9 @@ func (s *h) protected(w http.ResponseWriter, r *http.Request) {
 	w.WriteHeader(http.StatusOK)
 }
 
-func (s *h) launch(key, src, amt string, fail bool) *req {
-	rq := &req{src: src, entered: make(chan struct{}), release: make(chan string, 1), done: make(chan int, 1)}
+func (s *h) launch(key, src, amt string, fail bool, b *burst) *req {
+	rq := &req{src: src, entered: make(chan struct{}), release: make(chan string, 1), done: make(chan int, 1),
+		rejecting: make(chan struct{}), rejRelease: make(chan struct{})}
 	s.mu.Lock()
 	s.reqs[key] = rq
 	s.mu.Unlock()
@@ -68,6 +117,12 @@ func (s *h) launch(key, src, amt string, fail bool) *req {
 	r.Header.Set("X-Amt", amt)
 	if fail {
 		r.Header.Set("X-Err", "1")
+	}
+	if b != nil && !s.builtin {
+		r.Header.Set("X-Burst", key)
+		s.mu.Lock()
+		s.bursts[key] = b
+		s.mu.Unlock()
 	}
 	w := httptest.NewRecorder()
 	go func() {
@@ -79,6 +134,9 @@ func (s *h) launch(key, src, amt string, fail bool) *req {
 			}
 			rq.done <- w.Code
 		}()
+		if b != nil && s.builtin {
+			b.wait()
+		}
 		s.cl.ServeHTTP(w, r)
 	}()
 	return rq
@@ -87,7 +145,66 @@ func (s *h) launch(key, src, amt string, fail bool) *req {
 func (s *h) drop(key string) {
 	s.mu.Lock()
 	delete(s.reqs, key)
+	delete(s.bursts, key)
 	s.mu.Unlock()
+}
+
+func (s *h) pstart(n int, src, prefix string) string {
+	s.mu.Lock()
+	for i := 0; i < n; i++ {
+		if _, dup := s.reqs[prefix+strconv.Itoa(i)]; dup {
+			s.mu.Unlock()
+			return "dup"
+		}
+	}
+	s.mu.Unlock()
+	s.seq++
+	b := &burst{n: int32(n)}
+	keys := make([]string, n)
+	rqs := make([]*req, n)
+	for i := 0; i < n; i++ {
+		keys[i] = fmt.Sprintf("%s#burst%d#%d", prefix, s.seq, i)
+		rqs[i] = s.launch(keys[i], src, "1", false, b)
+	}
+	var adm, parked []*req
+	rejected, other := 0, 0
+	for i, rq := range rqs {
+		select {
+		case <-rq.entered:
+			adm = append(adm, rq)
+		case <-rq.rejecting:
+			rq.parked = true
+			parked = append(parked, rq)
+		case code := <-rq.done:
+			if code == http.StatusTooManyRequests {
+				rejected++
+			} else {
+				other++
+			}
+		}
+		s.drop(keys[i])
+	}
+	s.mu.Lock()
+	for i, rq := range append(adm, parked...) {
+		s.reqs[prefix+strconv.Itoa(i)] = rq
+	}
+	s.mu.Unlock()
+	out := fmt.Sprintf("admitted=%d", len(adm))
+	if s.slow {
+		out += fmt.Sprintf(" rejecting=%d", len(parked))
+		if rejected > 0 {
+			out += fmt.Sprintf(" rejected=%d", rejected)
+		}
+	} else {
+		out += fmt.Sprintf(" rejected=%d", rejected)
+		if len(parked) > 0 {
+			out += fmt.Sprintf(" rejecting=%d", len(parked))
+		}
+	}
+	if other > 0 {
+		out += fmt.Sprintf(" other=%d", other)
+	}
+	return out
 }
 
 func (s *h) Op(f []string) string {
@@ -122,8 +239,11 @@ func (s *h) Op(f []string) string {
 				return "dup"
 			}
 		}
-		rq := s.launch(key, src, amt, fail)
+		rq := s.launch(key, src, amt, fail, nil)
 		select {
+		case <-rq.rejecting:
+			rq.parked = true
+			return "rejecting"
 		case <-rq.entered:
 			if fail {
 				// must not happen: let it out again so nothing is left blocked
@@ -150,6 +270,15 @@ func (s *h) Op(f []string) string {
 		if rq == nil {
 			return "unknown"
 		}
+		if rq.parked {
+			close(rq.rejRelease)
+			code := <-rq.done
+			s.drop(f[1])
+			if code != http.StatusTooManyRequests {
+				return fmt.Sprintf("rejected-done-status %d", code)
+			}
+			return "rejected-done"
+		}
 		rq.release <- f[2]
 		code := <-rq.done
 		s.drop(f[1])
@@ -157,6 +286,12 @@ func (s *h) Op(f []string) string {
 			return fmt.Sprintf("released-unexpected %d", code)
 		}
 		return "released"
+	case f[0] == "pstart" && len(f) == 4:
+		n, err := strconv.Atoi(f[1])
+		if err != nil || n < 1 || n > 64 {
+			return "bad-op"
+		}
+		return s.pstart(n, f[2], f[3])
 	case f[0] == "inflight" && len(f) == 2:
 		s.mu.Lock()
 		defer s.mu.Unlock()
@@ -174,6 +309,10 @@ func (s *h) Close() {
 	}
 	s.mu.Unlock()
 	for _, r := range rs {
+		if r.parked {
+			close(r.rejRelease)
+			continue
+		}
 		select {
 		case r.release <- "normal":
 		default:
@@ -181,7 +320,15 @@ func (s *h) Close() {
 	}
 }
 
-func customExtract(r *http.Request) (string, int64, error) {
+func (s *h) customExtract(r *http.Request) (string, int64, error) {
+	if k := r.Header.Get("X-Burst"); k != "" {
+		s.mu.Lock()
+		b := s.bursts[k]
+		s.mu.Unlock()
+		if b != nil {
+			b.wait()
+		}
+	}
 	if r.Header.Get("X-Err") != "" {
 		return "", 0, errors.New("cannot identify the source")
 	}
@@ -194,8 +341,8 @@ func customExtract(r *http.Request) (string, int64, error) {
 
 func main() {
 	hx.Main(func(cfg []string) (hx.Handler, string) {
-		s := &h{reqs: map[string]*req{}, inside: map[string]int{}}
-		var ext utils.SourceExtractor = utils.ExtractorFunc(customExtract)
+		s := &h{reqs: map[string]*req{}, inside: map[string]int{}, bursts: map[string]*burst{}}
+		var ext utils.SourceExtractor = utils.ExtractorFunc(s.customExtract)
 		if v, _ := hx.KV(cfg, "ext"); v == "builtin" {
 			e, err := utils.NewExtractor("request.header.X-Src")
 			if err != nil {
@@ -203,7 +350,12 @@ func main() {
 			}
 			ext, s.builtin = e, true
 		}
-		cl, err := connlimit.New(http.HandlerFunc(s.protected), ext, hx.KVInt64(cfg, "max", 0))
+		var opts []connlimit.Option
+		if v, _ := hx.KV(cfg, "slowreject"); v == "1" {
+			s.slow = true
+			opts = append(opts, connlimit.ErrorHandler(utils.ErrorHandlerFunc(s.slowErr)))
+		}
+		cl, err := connlimit.New(http.HandlerFunc(s.protected), ext, hx.KVInt64(cfg, "max", 0), opts...)
 		if err != nil {
 			return nil, "err " + err.Error()
 		}
